@@ -21,6 +21,9 @@ Inductive c36case :=
 | CConv (part : N) (pname : bytes) (q : sreq) (refparse refauth : option bytes) (a n : option cobs)
 | CSkip.
 
+(* compact literal for long runs of one byte in case files *)
+Definition rep (c : N) (n : Z) : bytes := repeat c (Z.to_nat n).
+
 Definition lookup (l : list (bytes * list bytes)) (n : bytes) : list bytes := h_get l n.
 Definition vals_eqb (a b : list bytes) : bool := list_eqb beq a b.
 Definition is_nil {A} (l : list A) : bool := match l with [] => true | _ => false end.
